@@ -125,40 +125,40 @@ def r15_1(run):
                         if isinstance(d, ast.Dict):
                             keys_w |= {const_str(k) for k in d.keys if const_str(k)}
                         elif isinstance(d, ast.DictComp):
-                            tn_ = _table_attr(d.generators[0].iter)
-                            keys_w.add("<table:%s>" % (tn_ or U(d.generators[0].iter)))
+                            tk_ = _table_keys(ix, ci, d.generators[0].iter)
+                            keys_w |= tk_ if tk_ is not None else {"<unknown table:%s>" % U(d.generators[0].iter)}
                     if isinstance(n, ast.Assign) and isinstance(n.targets[0], ast.Subscript) and const_str(n.targets[0].slice):
                         keys_w.add(const_str(n.targets[0].slice))
                 for n in ast.walk(fd.node):
                     if isinstance(n, ast.Subscript) and isinstance(n.ctx, ast.Load) and U(n.value) == "d" and const_str(n.slice):
                         keys_r.add(const_str(n.slice))
                     if isinstance(n, ast.Compare) and any(isinstance(o, (ast.In, ast.NotIn)) for o in n.ops) \
-                            and _table_attr(n.comparators[0]) is not None:
-                        keys_r.add("<table:%s>" % _table_attr(n.comparators[0]))
+                            and _table_keys(ix, ci, n.comparators[0]) is not None:
+                        keys_r |= _table_keys(ix, ci, n.comparators[0])
                     if isinstance(n, ast.Assign):
                         for t in n.targets:
                             if (isinstance(t, ast.Attribute) and t.attr == a) or (isinstance(t, ast.Subscript) and const_str(t.slice) == a):
                                 restored = True
-            # literal keys that are members of a class-level key table are covered by the table
-            def table_members(ks):
-                out = set()
-                for k_ in ks:
-                    if k_.startswith("<table:"):
-                        nm = k_[7:-1].split(".")[0].split("(")[0]
-                        for kc in ix.mro(ci):
-                            v_ = kc.attrs.get(nm)
-                            if isinstance(v_, ast.Dict):
-                                out |= {const_str(x) for x in v_.keys if const_str(x)}
-                                break
-                return out
-            keys_w -= table_members(keys_w)
-            keys_r -= table_members(keys_r)
             ok = a in excl and custom and restored and keys_w and keys_w == keys_r
             run.ob("%s|%s|non-native-handled" % (ci.name, a), bool(ok),
                    "attribute %s holds a %s object (not JSON-native): it is excluded from the generic dump and a matching "
                    "to_dict/from_dict pair stores and rebuilds it" % (a, "/".join(sorted(kinds))), w,
                    detail="excluded=%s custom pair=%s restored=%s keys written=%s read=%s" % (a in excl, custom, restored, sorted(keys_w), sorted(keys_r)))
     run.floor(30)
+
+
+def _table_keys(ix, ci, e):
+    """keys of a class-level key table used as `self.X`, `cls.X`, `X.keys()` or (substituted at its use) as a dict display"""
+    if isinstance(e, ast.Call) and isinstance(e.func, ast.Attribute) and e.func.attr == "keys" and not e.args:
+        e = e.func.value
+    if isinstance(e, ast.Attribute) and isinstance(e.value, ast.Name) and e.value.id in ("self", "cls"):
+        for kc in ix.mro(ci):
+            if e.attr in kc.attrs:
+                e = kc.attrs[e.attr]
+                break
+    if isinstance(e, ast.Dict) and all(const_str(k) is not None for k in e.keys):
+        return {const_str(k) for k in e.keys}
+    return None
 
 
 def _table_attr(e):
@@ -440,6 +440,9 @@ def r15_5(run):
                     and x.value.value.attr == "__dict__" and U(x.value.value.value) not in ("self",):
                 it = x.generators[0].iter
                 tbl = it.func.value if isinstance(it, ast.Call) and isinstance(it.func, ast.Attribute) and it.func.attr == "keys" else it
+                if isinstance(tbl, ast.Dict):          # the class-level table, substituted at its use (flatten.const_substituted)
+                    private += [(const_str(kk), x) for kk in tbl.keys if const_str(kk) and const_str(kk).startswith("_")]
+                    continue
                 if isinstance(tbl, ast.Attribute) and U(tbl.value) in ("self", "cls"):
                     v = None
                     for k in ix.mro(ci):
